@@ -203,6 +203,8 @@ def r3(ctx):
           "payloads up to the single-datagram limit are not fragmented and payloads above it are",
           lambda m, c: m["T_frag"] + o1 + c.SIZE + c.TAG == m["mtu"] - c.UDP,
           lambda m, c: {"T_frag": m["T_frag"], "overhead(1)": o1, "SIZE": c.SIZE, "TAG": c.TAG, "MTU-UDP": m["mtu"] - c.UDP}, snd)
+    if not ctx.require("C06.R3", bld, "oversize refusal `if len(payload) > LIMIT: raise` in FragmentSender.build", 1 if cap.limit_test is not None else 0, 1):
+        return
     sweep(ctx, "C06.R3", "LIMIT == MAX_FRAGMENT_SIZE * MAX_FRAGMENTS and count fits",
           "the refusal threshold is the documented limit and every accepted payload needs at most MAX_FRAGMENTS fragments",
           lambda m, c: m["LIMIT"] == m["F"] * c.MAX_FRAGMENTS and -(-m["LIMIT"] // m["F"]) <= c.MAX_FRAGMENTS,
